@@ -3,7 +3,7 @@
    Attribute names are the constructor parameter names (Gen/Tables_C12.v); LaneletNetwork and Scenario also
    list the content added through add_* ("lanelets", "static_obstacles", ...).
    Every entry is validated by the correspondence (Corr/C12.v): a wrong kind makes a prediction differ. *)
-From Coq Require Import List String.
+From Coq Require Import List Bool String.
 From CR Require Import Model.EqHash Gen.Tables_C12.
 Import ListNotations.
 Open Scope string_scope.
@@ -154,3 +154,48 @@ Definition families_C12 (state_classes : list string) : list (string * string) :
   ("AngleInterval", "Interval") :: map (fun c => (c, "State")) state_classes.
 
 Definition T_C12 : table := {| t_family := families_C12 state_classes_C12; t_spec := specs_C12 |}.
+
+(* ------------------------------------------------------------------ the table vs the source text *)
+(* Gen/Tables_C12.v also lists, from the syntax tree of every __eq__ / __hash__ (following delegation to the base
+   class), which attributes the method reads on self and on other.  The transcribed table must agree: every
+   attribute it claims to be compared is read on BOTH sides (so "compared with itself" is impossible), nothing is
+   read on one side only, and every attribute it claims to be hashed is read by __hash__.  Classes that read their
+   attributes by computed name (State family, SignalState: getattr loops) only get the one-side check. *)
+Open Scope bool_scope.
+
+Fixpoint smem (a : string) (l : list string) : bool :=
+  match l with [] => false | b :: r => String.eqb a b || smem a r end.
+
+Definition stored_name (c a : string) : string :=
+  match assoc c stored_C12 with
+  | Some l => match assoc a l with Some s => s | None => a end
+  | None => a
+  end.
+
+Definition src_eq_ok (T : table) : bool :=
+  forallb (fun e =>
+    match e with
+    | (c, (dyn, both, oneside)) =>
+        match oneside with [] => true | _ => false end &&
+        (dyn || match spec_of T c with
+                | None => false
+                | Some sp => forallb (fun p => is_ignored (snd p) || smem (stored_name c (fst p)) both) (f_eq sp)
+                end)
+    end) src_eq_C12.
+
+Definition src_hash_ok (T : table) : bool :=
+  forallb (fun e =>
+    match e with
+    | (c, (dyn, hs)) =>
+        dyn || match spec_of T c with
+               | None => false
+               | Some sp => forallb (fun p => is_hignored (snd p) || smem (stored_name c (fst p)) hs) (f_hash sp)
+               end
+    end) src_hash_C12.
+
+(* every class of the generated attribute table is also in the source-text tables *)
+Definition src_complete : bool :=
+  forallb (fun ca => match assoc (fst ca) src_eq_C12, assoc (fst ca) src_hash_C12 with
+                     | Some _, Some _ => true
+                     | _, _ => false
+                     end) attrs_C12.
